@@ -832,9 +832,12 @@ func ruleC13_1(c *Ctx, r *Rep) {
 		missA, extra, _ := c.matchAtoms(s.Where, []ap{{col: "subscription_id", ops: []string{"eq"}}, {col: "published_at", ops: []string{"lte", "gt"}}, {col: "expires_at", ops: []string{"gte", "gt"}}},
 			[]ap{{col: "completed_at", ops: []string{"isnull", "notnull"}}})
 		r.Check("C13.1", fmt.Sprintf("C13.1:no-extra-atom#%d@%s", i+1, fnSeekTime), s.Pos, len(extra) == 0, "", "seek half restricted by an extra atom: "+c.predsString(extra))
-		// only unexpired deliveries take part in a time seek (a message past its retention is not restored: it would
+		// only unexpired deliveries are re-opened by a time seek (a message past its retention is not restored: it would
 		// come back behind its already delivered ordered successor)
-		r.Check("C13.1", fmt.Sprintf("C13.1:unexpired-only#%d@%s", i+1, fnSeekTime), s.Pos, len(missA) == 0, "", "a half of the time seek is not restricted to unexpired deliveries (expires_at >= now): "+strings.Join(missA, ", "))
+		// (the RE-OPENING half: acknowledging an expired delivery changes nothing a client can see, re-opening one does)
+		if i == 1 {
+			r.Check("C13.1", fmt.Sprintf("C13.1:unexpired-only#%d@%s", i+1, fnSeekTime), s.Pos, len(missA) == 0, "", "the re-opening half of the time seek is not restricted to unexpired deliveries (expires_at >= now): "+strings.Join(missA, ", "))
+		}
 	}
 	cn := b.Find("", "completed_at", "notnull")
 	r.Check("C13.1", "C13.1:reopen-only-completed@"+fnSeekTime, b.Pos, len(cn) == 1 && b.Unconditional(cn[0]), "re-open touches only completed deliveries",
